@@ -103,7 +103,7 @@ FieldDevs(line, e, pre, o) ==
         \o chk("panic", o.panic, e.panic) \o chk("cbs", o.cbs, e.cbs)
         \o chk("loads", o.loads, LoadSet(e.loads)) \o chk("res", o.res, KVSet(e.res))
         \o chk("ents", o.ents, EntSet(e.ents)) \o chk("ch", o.ch, e.ch)
-        \o chk("rrs", NormRRSpec(o.rrs), {x \in NormRR(e.rrs) : x.k \in {y.k : y \in o.rrs}}) \o chk("num", o.num, e.num)
+        \o chk("rrs", NormRRSpec(o.rrs), IF e.a.op = "BulkRefresh" THEN NormRR(e.rrs) \cap NormRRSpec(o.rrs) ELSE NormRR(e.rrs)) \o chk("num", o.num, e.num)
 
 \* projection through GetEntryQuietly, one key
 ProjDevs(line, e, pre0, st, k, refany) ==
